@@ -15,6 +15,7 @@ LEAN_MODULES = ["FimVerif.Proofs.C05"]
 P = "FimVerif.C05."
 THEOREMS = [P + t for t in ("flow_is_modelled", "identity_unset_refused", "identity_names_listed", "class_update_refused",
                               "class_update_refused_step", "none_value_refused", "bulk_update_stores_every_value",
+                              "unset_asks_presence_not_value", "stored_value_is_present_until_unset",
                               "identity_props_protected", "identity_merge_class_counterexample",
                               "add_node_existing_id_refused", "nid_unique", "nid_unique_reachable",
                               "merge_keeps_edges", "merge_policy", "merge_failure_atomic",
@@ -64,8 +65,9 @@ ASSUMPTIONS = [
     "answer from both - asked by the history itself and by a sweep of 12 read-only requests per graph id right after the parting, "
     "every third call after it and at the end of every history",
 ]
-RULE = ("corpus first, then state-aware operation histories (depth <= 40) plus every continuation of depth 2 of a fixed two-graph prefix over a "
-        "53-operation alphabet (thorough: also depth 3 over the 28 operations addressed to the first graph or to both); 3 graph ids, "
+RULE = ("corpus first, then 162 value life cycles (9 ways a value gets onto a node / link x 9 value classes incl. None '' 0 False [] {} "
+        "'None' x 2 names, each followed by read / unset / unset again / value-filtering queries / set / unset), then state-aware operation histories (depth <= 40) plus every continuation of depth 2 of a fixed two-graph prefix over a "
+        "55-operation alphabet (thorough: also depth 3 over the 29 operations addressed to the first graph or to both); 3 graph ids, "
         "4 node ids, 3 classes, 2 relations, property names {Name, Type, Class, NodeID, GraphID, p, q}; a second stream of histories "
         "writes GraphID / NodeID in 10-12% of the updates / initial properties / merge policies, merges a graph with itself, calls "
         "delete_all_graphs, and (correspondence only) imports, imports directly and clones; 12% of the histories open with a chain of "
@@ -123,7 +125,91 @@ def merge_chain(rng, gids, nids):
     return h
 
 
+class PropShadow(L.Shadow):
+    """lib_store.Shadow plus a memory of which property names earlier requests (probably) stored on which node / link, with
+    the value: an unset is aimed at a property that is there - half of the time at one whose stored value is falsy (None, '',
+    0, False, [], {}) when there is one - instead of at a random name (which almost always answers "no such property").
+    Nothing here is an oracle."""
+
+    def __init__(self):
+        super().__init__()
+        self.nprops, self.lprops = [], []
+
+    def note(self, req):
+        super().note(req)
+        op = req[0]
+        if op == "add_node" and req[4]:
+            self.nprops += [(req[1], req[2], k, v) for k, v in req[4].items()]
+        elif op == "update_node_property":
+            self.nprops.append((req[1], req[2], req[3], req[4]))
+        elif op == "update_node_properties":
+            self.nprops += [(req[1], req[2], k, v) for k, v in req[3].items()]
+        elif op == "update_nodes_property":
+            self.nprops += [(g, x, req[2], req[3]) for g, x in set(self.nodes) if g == req[1]]
+        elif op == "add_link" and req[5]:
+            self.lprops += [(req[1], req[2], req[4], req[3], k, v) for k, v in req[5].items()]
+        elif op == "update_link_property":
+            self.lprops.append((req[1], req[2], req[3], req[4], req[5], req[6]))
+        elif op == "update_link_properties":
+            self.lprops += [(req[1], req[2], req[3], req[4], k, v) for k, v in req[5].items()]
+
+    def aim(self, rng, req, gids):
+        req = super().aim(rng, req, gids)
+        op = req[0]
+        if op in ("unset_node_property", "unset_link_property") and rng.random() < 0.65:
+            pool = self.nprops if op == "unset_node_property" else self.lprops
+            pool = [t for t in pool if t[-2] not in IDENT]
+            falsy = [t for t in pool if not t[-1]]
+            if falsy and rng.random() < 0.5:
+                pool = falsy
+            if pool:
+                t = rng.choice(pool)
+                req[1:len(t)] = list(t[:-1])
+        return req
+
+
 STORE_KINDS = ["add_graph", "add_graph", "add_graph_direct", "clone", "clone", "merge_nodes", "merge_nodes"]
+
+
+# every class of value the interface stores (ASSUMPTIONS: any JSON value without floats), falsy ones and look-alikes first
+LIFE_VALS = [None, "", 0, False, [], {}, "None", [None, 0], "x"]
+
+
+def value_lifecycles():
+    """deterministic histories: every way a value gets onto a node / a link (initial properties, single, whole-graph and bulk
+    update, merge_nodes copying the other node's value under 'overwrite' / pairing it under 'combine') x every value class of LIFE_VALS x every request
+    that consumes the stored property afterwards (read, unset, unset again - which must now say "not there" -, the two
+    value-filtering queries, set again, unset).  A stored None / '' / 0 / False / [] / {} is a value like any other: the
+    property is THERE until it is unset."""
+    hs = []
+    for v in LIFE_VALS:
+        for k in ("p", "Site"):
+            opening = [["add_node", "g1", "n1", "NetworkNode", {"Name": "a", "Type": "x"}], ["add_node", "g1", "n2", "Link", None],
+                       ["add_link", "g1", "n1", "has", "n2", None], ["add_node", "g2", "n2", "Link", {"q": "y"}]]
+            after = [["get_node_properties", "g1", "n1"], ["unset_node_property", "g1", "n1", k], ["get_node_properties", "g1", "n1"],
+                     ["unset_node_property", "g1", "n1", k], ["nodes_by_class_and_type", "g1", "NetworkNode", "x"],
+                     ["check_node_unique", "g1", "NetworkNode", "a"], ["update_node_property", "g1", "n1", k, "y"],
+                     ["unset_node_property", "g1", "n1", k], ["get_node_properties", "g1", "n1"]]
+            node_ways = [[["update_node_properties", "g1", "n1", {k: v, "q": "z"}]],
+                         [["update_node_property", "g1", "n1", k, v]],
+                         [["update_nodes_property", "g1", k, v]],
+                         [["delete_node", "g1", "n1"], ["add_node", "g1", "n1", "NetworkNode", {"Name": "a", k: v}]],
+                         [["add_node", "g2", "n1", "Link", {k: v, "Name": "b"}], ["update_node_property", "g1", "n1", k, "mine"],
+                          ["merge_nodes", "g1", "n1", "g2", {k: "overwrite"}]],
+                         [["add_node", "g2", "n1", "Link", {k: v, "Name": "b"}], ["update_node_properties", "g1", "n1", {k: v}],
+                          ["merge_nodes", "g1", "n1", "g2", {k: "combine", "Name": "discard"}]]]
+            for way in node_ways:
+                hs.append(copy.deepcopy(opening + way + after))
+            lafter = [["get_link_properties", "g1", "n1", "n2"], ["unset_link_property", "g1", "n2", "n1", "has", k],
+                      ["get_link_properties", "g1", "n2", "n1"], ["unset_link_property", "g1", "n1", "n2", "has", k],
+                      ["update_link_property", "g1", "n1", "n2", "has", k, "y"], ["unset_link_property", "g1", "n1", "n2", "has", k],
+                      ["get_link_properties", "g1", "n1", "n2"]]
+            link_ways = [[["add_link", "g1", "n1", "has", "n2", {k: v}]],
+                         [["update_link_property", "g1", "n1", "n2", "has", k, v]],
+                         [["update_link_properties", "g1", "n2", "n1", "has", {k: v, "q": "z"}]]]
+            for way in link_ways:
+                hs.append(copy.deepcopy(opening + way + lafter))
+    return hs
 
 
 def gen_histories(ctx, tag, n, length, keys=0.0, store=False):
@@ -133,7 +219,7 @@ def gen_histories(ctx, tag, n, length, keys=0.0, store=False):
     hs = load_corpus()
     gids, nids = ["g1", "g2", "g3"], ["n1", "n2", "n3", "n4"]
     for _ in range(n):
-        h, sh = [], L.Shadow()
+        h, sh = [], PropShadow()
         if store and rng.random() < 0.25:
             _, h = L.gen_scenario(rng, gids, nids)
             for r in h:
@@ -376,7 +462,9 @@ def correspondence(ctx, res):
     # second stream: GraphID / NodeID rewrites (updates, initial properties, merge policies), delete_all_graphs, and the
     # storage operations (imports, direct imports, clones) next to the property-graph ones
     hs2 = gen_histories(ctx, "corr-keys", n // 2, 40, keys=0.12, store=True)[len(load_corpus()):]
-    run_correspondence(hs + hs2, res)
+    hs0 = value_lifecycles()
+    run_correspondence(hs0 + hs + hs2, res)
+    res.count("histories:value-lifecycles", len(hs0))
     res.count("histories:plain", len(hs))
     res.count("histories:key-rewrites+storage", len(hs2))
     res.sample({"history": hs2[-1][:6], "note": "S: shared store vs Store.step; D: disjoint store vs DStore.step; "
@@ -850,6 +938,7 @@ def small_alphabet():
         A.append(["update_nodes_property", g, "Class", "y"])
         A.append(["update_node_properties", g, "n2", {"Type": "x", "q": ""}])
         A.append(["update_node_properties", g, "n1", {"p": "y", "Name": None, "Type": 0}])
+        A.append(["update_node_properties", g, "n1", {"p": None, "q": 0}])
         A.append(["update_node_property", g, "n1", "Name", None])
         A.append(["update_nodes_property", g, "Type", False])
         A.append(["update_link_properties", g, "n1", "n2", "has", {"p": None, "q": ["a", "b", "c"]}])
@@ -886,6 +975,11 @@ def oracle(ctx, res, n=None, length=40, exhaustive=None):
                                   "delete_graph", "list_all_node_ids"])
         res.evaluations += 1
         check_handle_objects({"flavour": "disjoint", "handles": ["one", "two"][i % 2], "hseed": i, "history": hh}, res)
+    # what a stored value - falsy ones and look-alikes included - means to every request that consumes it afterwards
+    for li, h in enumerate(value_lifecycles()):
+        res.evaluations += 1
+        res.count("value-lifecycles")
+        check_history(h, res, handles=handle_mode(li), hseed=li)
     for hi, h in enumerate(hs):
         res.evaluations += 1
         res.count("handles:%s" % handle_mode(hi))
